@@ -27,9 +27,11 @@ var c13Classes = map[string][]string{
 	"nonascii":  {"é", "ñandú", "中文", "😀", "Ünï"},
 	"space":     {" ", "  "},
 	"rego":      {`]`, `)`, `") { true }`, `"; x := 1 #`, `|`, `}`},
+	// control characters other than tab and line feed, and the Unicode line and paragraph separators
+	"control": {"\x1b", "\x1b[31mred\x1b[0m", "\f", "\a", "\b", "\v", "\r", "\x1f", "\x7f", "\x00", "\u0085", "\u2028", "\u2029", "\ufeff"},
 }
 
-var c13ClassNames = []string{"dquote", "squote", "backslash", "percent", "braces", "dollar", "backtick", "hash", "colon", "newline", "tab", "nonascii", "space", "rego"}
+var c13ClassNames = []string{"dquote", "squote", "backslash", "percent", "braces", "dollar", "backtick", "hash", "colon", "newline", "tab", "nonascii", "space", "rego", "control"}
 
 type c13Text struct {
 	S       string   `json:"s"`
